@@ -312,8 +312,9 @@ func engineErr(f string, a ...interface{}) *EngineError {
 
 // targetPanic: the program under analysis panicked.
 type targetPanic struct {
-	Msg string
-	V   value
+	Msg   string
+	V     value
+	Fatal bool // kills the real process (stack exhaustion, out of memory): recover() does not catch it
 }
 
 // pathKilled: Assume(false) or infeasible
